@@ -325,6 +325,34 @@ def inline_new_functions(program):
     return done
 
 
+def inline_new_literal_consts(prog, ref_fns):
+    """`const CLOSING_PREFIX: &str = "/";` - a *new* named constant (not in the reference description) whose initialiser is a
+    literal is that literal wherever it is used."""
+    if ref_fns is None:
+        return {}
+    consts = {}
+    for b in prog.facts["bodies"]:
+        if (b.get("kind") or "").startswith(("Const", "AssocConst")) and b["def_path"] not in ref_fns and "::tests::" not in b["def_path"] \
+                and T.peel(b["tree"]).get("k") == "lit":
+            consts[b["def_path"]] = T.peel(b["tree"])
+    done = {}
+    if not consts:
+        return done
+    for b in prog.facts["bodies"]:
+        if b.get("exp"):
+            continue
+        for n in T.nodes(b["tree"]):
+            if n.get("k") == "path" and (n.get("res") or {}).get("r") == "def" and n["res"].get("path") in consts:
+                keep = {k: n[k] for k in ("adj", "aty", "id", "sp") if k in n}
+                name = n["res"]["path"]
+                lit = copy.deepcopy(consts[name])
+                n.clear()
+                n.update(lit)
+                n.update(keep)
+                done[T.short_path(name)] = done.get(T.short_path(name), 0) + 1
+    return done
+
+
 def strip_debug_assertions(program):
     """The analysed configuration is the release build (debug_assertions off): `debug_assert!` / `debug_assert_eq!` /
     `debug_assert_ne!` are compiled out there.  Their expansion `if cfg!(debug_assertions) { .. panic .. }` is replaced by `()`."""
